@@ -1429,6 +1429,9 @@ class Executor:
             return VInt(v)
         if isinstance(v, bytes):
             return self.bytes_const(v)
+        sc = getattr(frame.contract, 'str_consts', None)
+        if sc and v in sc:
+            return sc[v]
         return VConst(v)
 
     def bytes_const(self, b):
